@@ -1,7 +1,12 @@
-/* C18 harness: the real canonicalize_name() / is_filename_sane() on the same lines as `sqfsmodel c18`. */
+/*
+ * C18 harness: the real canonicalize_name() / is_filename_sane() on the same lines as `sqfsmodel c18`.
+ * canonicalize_name.c is #included (not linked) so that its static normalize_slashes() can be driven on its own
+ * (`norm` op): the first and third pass of canonicalize_name are then tied to the model separately from the whole.
+ */
 #include "config.h"
 #include "util/util.h"
 #include "hexio.h"
+#include "lib/util/src/canonicalize_name.c"
 
 int main(void)
 {
@@ -10,12 +15,39 @@ int main(void)
 		char *op = strtok(line, " \n"), *arg = strtok(NULL, " \n");
 		unsigned char *buf;
 		long n;
+		char *arg2 = strtok(NULL, " \n");
 		if (!op || !arg || (n = hex_decode_tok(arg, &buf, 1)) < 0) { puts("bad-op"); continue; }
 		if (memchr(buf, 0, (size_t)n)) { puts("bad-op"); free(buf); continue; }
 		if (strcmp(op, "canon") == 0) {
 			int rc = canonicalize_name((char *)buf);
 			if (rc != 0) puts("fail");
 			else { fputs("ok ", stdout); hex_print(stdout, buf, strlen((char *)buf)); putchar('\n'); }
+		} else if (strcmp(op, "canonmem") == 0) {
+			/* the array is exactly: the string, its NUL, then <arg2>; printed whole after the call */
+			unsigned char *tl, *mem;
+			long nt;
+			if (!arg2 || (nt = hex_decode_tok(arg2, &tl, 0)) < 0) { puts("bad-op"); free(buf); continue; }
+			mem = malloc((size_t)n + 1 + (size_t)nt);
+			if (!mem) abort();
+			memcpy(mem, buf, (size_t)n + 1);
+			memcpy(mem + n + 1, tl, (size_t)nt);
+			if (canonicalize_name((char *)mem) != 0) puts("fail");
+			else { fputs("ok ", stdout); hex_print(stdout, mem, (size_t)n + 1 + (size_t)nt); putchar('\n'); }
+			free(mem);
+			free(tl);
+		} else if (strcmp(op, "norm") == 0) {
+			/* normalize_slashes() alone on the array string+NUL+<arg2>; whole array printed */
+			unsigned char *tl, *mem;
+			long nt;
+			if (!arg2 || (nt = hex_decode_tok(arg2, &tl, 0)) < 0) { puts("bad-op"); free(buf); continue; }
+			mem = malloc((size_t)n + 1 + (size_t)nt);
+			if (!mem) abort();
+			memcpy(mem, buf, (size_t)n + 1);
+			memcpy(mem + n + 1, tl, (size_t)nt);
+			normalize_slashes((char *)mem);
+			fputs("ok ", stdout); hex_print(stdout, mem, (size_t)n + 1 + (size_t)nt); putchar('\n');
+			free(mem);
+			free(tl);
 		} else if (strcmp(op, "sane") == 0) {
 			int a = is_filename_sane((char *)buf, false), b = is_filename_sane((char *)buf, true);
 			if (a != b) puts("os-specific-differs"); else puts(a ? "1" : "0");
